@@ -808,5 +808,151 @@ pub mod client_handler {
 //@endfn
 }
 
+// ---- memcache/random_policy.rs ---------------------------------------------------------------------------
+pub mod random_policy {
+    use vstd::prelude::*;
+    use super::*;
+    use super::atomic;
+
+//@fields memcache/random_policy.rs | struct RandomPolicy | store,memory_limit,memory_usage
+    pub struct RandomPolicy {
+        pub store: MemoryStore,                 // R4: Arc<dyn Cache + Send + Sync>, instantiated as builder.rs does for policy Random
+        pub memory_limit: u64,
+        pub memory_usage: atomic::AtomicU64,
+    }
+
+    // C14/C15: the size the policy charges for a record (Record::len)
+    pub open spec fn size_of_item(i: Item) -> int { 24 + i.value.len() as int }
+    pub open spec fn usage(p: RandomPolicy) -> int { p.memory_usage.val() as int }
+    pub open spec fn rp_inv(p: RandomPolicy) -> bool { ms_inv(p.store) }
+    // everything but the accounting counter and the map content is untouched
+    pub open spec fn rp_frame(a: RandomPolicy, b: RandomPolicy) -> bool {
+        rp_inv(b) && b.memory_limit == a.memory_limit && b.store.timer.now() == a.store.timer.now()
+    }
+    // no wrap-around of the accounting arithmetic in this call (ASSUMED small enough: usage and sizes below 2^62)
+    pub open spec fn rp_small(p: RandomPolicy) -> bool { p.memory_usage.val() < 0x4000_0000_0000_0000 }
+
+    impl RandomPolicy {
+//@fn memcache/random_policy.rs | impl RandomPolicy | new | ret=r | safety=C10 | sigsub=Arc<dyn Cache + Send + Sync>=>MemoryStore
+        ensures
+            r.store == store && r.memory_limit == memory_limit && usage(r) == 0, // @ob C15,C14 policy.new.starts_at_zero
+//@endfn
+
+        // incr_mem_usage: FnMut closure with captured counters handed to remove_if, iterator adapters, rand - outside
+        // Verus.  ASSUMED here: without memory pressure nothing is evicted and the counter grows by `value`;
+        // under pressure only a sub-map of the content survives.  (Kani harness policy_evict_step where it finishes.)
+//@fn memcache/random_policy.rs | impl RandomPolicy | incr_mem_usage | ret=r | mutself | safety=C10 | assumed=kani:policy_evict_step
+        requires
+            rp_inv(*old(self)),
+        ensures
+            rp_frame(*old(self), *final(self)) && final(self).store.cas_id == old(self).store.cas_id,
+            final(self).store.memory@.submap_of(old(self).store.memory@),
+            usage(*old(self)) <= old(self).memory_limit ==> final(self).store.memory@ == old(self).store.memory@
+                && final(self).memory_usage.val() == ((usage(*old(self)) + value) % 0x1_0000_0000_0000_0000) as u64,
+//@endfn
+
+//@fn memcache/random_policy.rs | impl RandomPolicy | decr_mem_usage | ret=r | mutself | safety=C10
+        ensures
+            r == old(self).memory_usage.val() && final(self).memory_usage.val() == ((usage(*old(self)) - value) % 0x1_0000_0000_0000_0000) as u64, // @ob C15 policy.decr.exact
+            final(self).store == old(self).store && final(self).memory_limit == old(self).memory_limit, // @ob C15 policy.decr.frame
+//@endfn
+    }
+
+    impl CacheImplDetails for RandomPolicy {
+        open spec fn cview(&self) -> CView { self.store.memory@ }
+        open spec fn now(&self) -> u64 { self.store.timer.now() }
+        open spec fn cas_next(&self) -> u64 { self.store.cas_id.val() }
+        open spec fn inv(&self) -> bool { ms_inv(self.store) }
+
+//@fn memcache/random_policy.rs | impl CacheImplDetails for RandomPolicy | get_by_key | ret=r | mutself | safety=C10
+            ensures
+                usage(*final(self)) == usage(*old(self)), // @ob C15 policy.get_by_key.accounting
+//@endfn
+
+//@fn memcache/random_policy.rs | impl CacheImplDetails for RandomPolicy | check_if_expired | ret=r | mutself | safety=C10
+            ensures
+                // C15: an expired record collected here leaves the store, so it has to leave the accounting too
+                r && old(self).store.memory@.contains_key(key@) ==> usage(*final(self)) == usage(*old(self)) - size_of_item(old(self).store.memory@[key@]), // @ob C15 policy.check_if_expired.collect_accounted
+                !r ==> usage(*final(self)) == usage(*old(self)), // @ob C15 policy.check_if_expired.live_unchanged
+//@endfn
+    }
+
+    impl Cache for RandomPolicy {
+//@fn memcache/random_policy.rs | impl Cache for RandomPolicy | get | ret=r | mutself | safety=C10
+            ensures
+                final(self).memory_limit == old(self).memory_limit, // @ob C15 policy.get.frame
+                r is Ok ==> usage(*final(self)) == usage(*old(self)), // @ob C15 policy.get.hit_unchanged
+                // C15: a miss that collected an expired record removed it from the store: the accounting must follow
+                r is Err && old(self).store.memory@.contains_key(key@) ==> usage(*final(self)) == usage(*old(self)) - size_of_item(old(self).store.memory@[key@]), // @ob C15 policy.get.expired_accounted
+//@endfn
+    }
+
+    impl RandomPolicy {
+        // The remaining methods of `impl Cache for RandomPolicy` (R8: verified as inherent methods)
+//@fn memcache/random_policy.rs | impl Cache for RandomPolicy | set | ret=r | mutself | safety=C10,C14
+        requires
+            rp_inv(*old(self)), cas_room(old(self).store.cas_id.val()), rp_small(*old(self)), record.value@.len() < 0x4000_0000_0000_0000,
+        ensures
+            rp_frame(*old(self), *final(self)), // @ob C15 policy.set.frame
+            // C01: with the limit not reached the store behaves exactly as without the policy
+            usage(*old(self)) <= old(self).memory_limit ==> post_set(old(self).store.memory@, old(self).store.cas_id.val(), old(self).store.timer.now(), key@, record.value@, record.header.flags, record.header.time_to_live, record.header.cas,
+                 r is Ok, r is Err && r->Err_0 == CacheError::KeyExists, r is Err && r->Err_0 == CacheError::NotFound, if r is Ok { r->Ok_0.cas } else { 0 }, final(self).store.memory@, final(self).store.cas_id.val()), // @ob C01,C15 policy.set.no_pressure_same_as_store
+            // C15 accounting, one obligation per case (no memory pressure: nothing evicted)
+            usage(*old(self)) <= old(self).memory_limit && r is Ok && !old(self).store.memory@.contains_key(key@)
+                ==> usage(*final(self)) == usage(*old(self)) + 24 + record.value@.len(), // @ob C15 policy.set.new_key_accounted
+            usage(*old(self)) <= old(self).memory_limit && r is Ok && old(self).store.memory@.contains_key(key@)
+                ==> usage(*final(self)) == usage(*old(self)) + 24 + record.value@.len() - size_of_item(old(self).store.memory@[key@]), // @ob C15 policy.set.overwrite_accounted
+            usage(*old(self)) <= old(self).memory_limit && r is Err
+                ==> usage(*final(self)) == usage(*old(self)), // @ob C15 policy.set.rejected_accounted
+//@endfn
+
+//@fn memcache/random_policy.rs | impl Cache for RandomPolicy | delete | ret=r | mutself | safety=C10
+        requires
+            rp_inv(*old(self)), rp_small(*old(self)),
+            forall|k: Seq<u8>| #[trigger] old(self).store.memory@.contains_key(k) ==> size_of_item(old(self).store.memory@[k]) <= usage(*old(self)),   // ASSUMED: no single record is charged more than the total
+        ensures
+            rp_frame(*old(self), *final(self)), // @ob C15 policy.delete.frame
+            post_delete(old(self).store.memory@, key@, header.cas, r is Ok, r is Err && r->Err_0 == CacheError::NotFound, r is Err && r->Err_0 == CacheError::KeyExists, final(self).store.memory@), // @ob C08 policy.delete.post_delete
+            r is Ok ==> usage(*final(self)) == usage(*old(self)) - size_of_item(old(self).store.memory@[key@]), // @ob C15 policy.delete.ok_accounted
+            r is Err ==> usage(*final(self)) == usage(*old(self)), // @ob C15 policy.delete.err_accounted
+//@endfn
+
+//@fn memcache/random_policy.rs | impl Cache for RandomPolicy | remove | ret=r | mutself | safety=C10
+        requires
+            rp_inv(*old(self)), rp_small(*old(self)),
+            forall|k: Seq<u8>| #[trigger] old(self).store.memory@.contains_key(k) ==> size_of_item(old(self).store.memory@[k]) <= usage(*old(self)),
+        ensures
+            rp_frame(*old(self), *final(self)), // @ob C15 policy.remove.frame
+            final(self).store.memory@ =~= old(self).store.memory@.remove(key@), // @ob C15 policy.remove.exact
+            r is Some ==> usage(*final(self)) == usage(*old(self)) - size_of_item(old(self).store.memory@[key@]), // @ob C15 policy.remove.some_accounted
+            r is None ==> usage(*final(self)) == usage(*old(self)), // @ob C15 policy.remove.none_accounted
+//@endfn
+
+//@fn memcache/random_policy.rs | impl Cache for RandomPolicy | flush | mutself | safety=C10
+        requires
+            rp_inv(*old(self)),
+        ensures
+            rp_frame(*old(self), *final(self)), // @ob C15 policy.flush.frame
+            post_flush(old(self).store.memory@, old(self).store.timer.now(), header.time_to_live, final(self).store.memory@), // @ob C08 policy.flush.post_flush
+            // C15: "returns to its initial value whenever the store returns to empty"
+            header.time_to_live == 0 ==> usage(*final(self)) == 0, // @ob C15 policy.flush.now_resets_accounting
+            header.time_to_live != 0 ==> usage(*final(self)) == usage(*old(self)), // @ob C15 policy.flush.delayed_unchanged
+//@endfn
+
+//@fn memcache/random_policy.rs | impl Cache for RandomPolicy | len | ret=r | safety=C10
+        ensures
+            r == self.store.memory@.dom().len(), // @ob C14 policy.len.exact
+//@endfn
+
+//@fn memcache/random_policy.rs | impl Cache for RandomPolicy | is_empty | ret=r | safety=C10
+        ensures
+            r == (self.store.memory@.dom().len() == 0), // @ob C14 policy.is_empty.exact
+//@endfn
+    }
+//@closed memcache/random_policy.rs | impl Cache for RandomPolicy | allow=as_read_only,remove_if
+//@closed memcache/random_policy.rs | impl RandomPolicy
+//@closed memcache/random_policy.rs | impl CacheImplDetails for RandomPolicy
+}
+
 } // verus!
 fn main() {}
